@@ -2,8 +2,8 @@
 // Included inside `pub mod tr { … }` after env/im_shim.vs, env/transition_spec.vs, env/schedule_shim.vs,
 // env/sched_guard_shim.vs and env/spawn_vehicle_shim.vs (nothing is copied from them: they are included as they are).
 // Everything `external_body` / `uninterp` / `axiom` in this file is an ASSUMPTION (listed in the header of
-// slices/sched_ctor.vs): A-iter (SeqIter::fold), A-index (all_service_seq), A-im (FromIterator of im::HashMap).
-// The rest are open spec functions and proved lemmas.
+// slices/sched_ctor.vs): A-iter (SeqIter::fold), A-index (all_service_seq), A-im (FromIterator of im::HashMap), A-map
+// (StdHashMap: `for` over a std HashMap by value).  The rest are open spec functions and proved lemmas.
 
 // =====================================================================================================
 // A-iter: `Iterator::fold` (std: "Folds every element into an accumulator by applying an operation, returning the
@@ -463,4 +463,643 @@ pub proof fn lemma_empty_invariants(s: &Schedule)
         lemma_type_sums_empty(trs, vts);
         assert(s.transitions_ok());
     }
+}
+
+// =====================================================================================================
+// Schedule::from_tours
+// =====================================================================================================
+// ---- A-map: a std `HashMap<K, V>` that is consumed by a `for` loop.  The slice declares `StdHashMap` (the name under
+// which solution/src/schedule.rs imports std's HashMap) as this opaque type; view = the abstract `Map<K, V>`.  Assumed
+// semantics of `IntoIterator for HashMap` (std: "an iterator visiting all key-value pairs in arbitrary order"): every
+// entry exactly once, in SOME order (`entries`)
+#[verifier::external_body]
+#[verifier::reject_recursive_types(K)]
+#[verifier::accept_recursive_types(V)]
+pub struct StdHashMap<K, V> { inner: std::collections::HashMap<K, V> }
+impl<K, V> View for StdHashMap<K, V> {
+    type V = Map<K, V>;
+    uninterp spec fn view(&self) -> Map<K, V>;
+}
+/// the order in which the `for` loop visits the entries of the map
+pub uninterp spec fn entries<K, V>(m: StdHashMap<K, V>) -> Seq<(K, V)>;
+pub open spec fn entries_ok<K, V>(m: StdHashMap<K, V>) -> bool {
+    let e = entries(m);
+    &&& forall|i: int, j: int| 0 <= i < j < e.len() ==> (#[trigger] e[i]).0 != (#[trigger] e[j]).0
+    &&& forall|i: int| 0 <= i < e.len() ==> m@.contains_key((#[trigger] e[i]).0) && m@[e[i].0] == e[i].1
+    &&& forall|k: K| m@.contains_key(k) ==> exists|i: int| 0 <= i < e.len() && (#[trigger] e[i]).0 == k
+}
+impl<K, V> IntoIterator for StdHashMap<K, V> {
+    type Item = (K, V);
+    type IntoIter = SeqIter<(K, V)>;
+    #[verifier::external_body]
+    fn into_iter(self) -> (r: SeqIter<(K, V)>)
+        ensures r@ == entries(self), entries_ok(self),
+    { unimplemented!() }
+}
+
+// ---- the given tours, in the order from_tours spawns them -------------------------------------------------
+/// one given tour with the vehicle type it is given for
+pub type JobV = (VehicleTypeIdx, Vec<NodeIdx>);
+pub type TourEntries = Seq<(VehicleTypeIdx, Vec<Vec<NodeIdx>>)>;
+/// the first j tours of one entry of the map
+pub open spec fn jobs_of_entry(e: (VehicleTypeIdx, Vec<Vec<NodeIdx>>), j: int) -> Seq<JobV> {
+    Seq::new(j as nat, |i: int| (e.0, e.1@[i]))
+}
+/// the tours of the first k entries, entry by entry
+pub open spec fn jobs_upto(es: TourEntries, k: int) -> Seq<JobV>
+    decreases k,
+{
+    if k <= 0 { Seq::empty() } else { jobs_upto(es, k - 1) + jobs_of_entry(es[k - 1], es[k - 1].1@.len() as int) }
+}
+/// all given tours: "for (vehicle_type, tours) in tours { for tour in tours { … } }"
+pub open spec fn all_jobs(es: TourEntries) -> Seq<JobV> { jobs_upto(es, es.len() as int) }
+/// the tours spawned so far are a prefix of all tours; the next one is the j-th tour of entry oi
+pub proof fn lemma_jobs_prefix(es: TourEntries, oi: int, j: int, k: int)
+    requires 0 <= oi < k <= es.len(), 0 <= j < es[oi].1@.len(),
+    ensures ({
+        let d = jobs_upto(es, oi) + jobs_of_entry(es[oi], j);
+        let a = jobs_upto(es, k);
+        d.len() < a.len() && a.take(d.len() as int) == d && a[d.len() as int] == (es[oi].0, es[oi].1@[j])
+    }),
+    decreases k,
+{
+    let d = jobs_upto(es, oi) + jobs_of_entry(es[oi], j);
+    let a = jobs_upto(es, k);
+    if k == oi + 1 {
+        let full = jobs_of_entry(es[oi], es[oi].1@.len() as int);
+        assert(a == jobs_upto(es, oi) + full);
+        assert(a.take(d.len() as int) =~= d);
+        assert(a[d.len() as int] == full[j]);
+    } else {
+        lemma_jobs_prefix(es, oi, j, k - 1);
+        let b = jobs_upto(es, k - 1);
+        assert(a == b + jobs_of_entry(es[k - 1], es[k - 1].1@.len() as int));
+        assert(a.take(d.len() as int) =~= b.take(d.len() as int));
+        assert(a[d.len() as int] == b[d.len() as int]);
+    }
+}
+
+// ---- magnitudes (stated preconditions) -------------------------------------------------------------------------
+/// A-cost (magnitude): the costs of one tour are at most 2^44, so that the u64 cost figure of up to 2^16 vehicles
+/// (plus a staff term of at most 2^60) stays below 2^61 (sched_cost_bound)
+pub open spec const TOUR_COST_MAX: int = 0x1000_0000_0000;
+pub open spec const STAFF_COST_MAX: int = 0x1000_0000_0000_0000;
+/// A-cap (magnitude): capacity and seats of one vehicle are at most 2^15 - 1, so that the u32 capacity / seat sums of a
+/// formation of up to 2^16 + 1 vehicles fit
+pub open spec const CAP_MAX: int = 0x7fff;
+pub open spec fn caps_ok(net: &Network) -> bool {
+    forall|vt: VehicleTypeIdx| #[trigger] net.vehicle_types.vehicle_types@.contains_key(vt)
+        ==> net.vehicle_types.vehicle_types@[vt].capacity <= CAP_MAX && net.vehicle_types.vehicle_types@[vt].seats <= CAP_MAX
+}
+/// A-counter, as `Schedule::spawn_counter_ok` (env/spawn_vehicle_shim.vs), which only depends on the network
+pub open spec fn path_counter_ok(net: &Network, path: Seq<NodeIdx>) -> bool {
+    forall|t: Tour| depots_added(net, path, t.nodes@) && tour_of_net(net, &t) && t.caches_ok()
+        ==> -counter_bound() <= #[trigger] tour_counter(&t) <= counter_bound()
+}
+/// A-cost for whatever tour the path becomes
+pub open spec fn path_cost_ok(net: &Network, path: Seq<NodeIdx>) -> bool {
+    forall|t: Tour| depots_added(net, path, t.nodes@) && #[trigger] tour_of_net(net, &t) && t.caches_ok() ==> t.costs <= TOUR_COST_MAX
+}
+/// what from_tours needs of one given tour: its vehicle type is a listed type of the network stored under its own index
+/// (type_known), the tour is not empty, its nodes are nodes of the network, A-len, A-counter, A-cost
+pub open spec fn job_ok(net: &Network, job: JobV) -> bool {
+    let p = job.1@;
+    &&& net.vehicle_types.vehicle_types@.contains_key(job.0) && net.vehicle_types.vehicle_types@[job.0].idx == job.0
+    &&& net.vehicle_types.ids_sorted@.contains(job.0)
+    &&& p.len() >= 1 && all_in_net(net, p) && tour_len_ok(p)
+    &&& path_counter_ok(net, p) && path_cost_ok(net, p)
+}
+/// a formation of at most k vehicles whose capacity / seat sums are small
+pub open spec fn form_small(f: Seq<Vehicle>, k: int) -> bool {
+    f.len() <= k && fcap(f) <= f.len() * CAP_MAX && fseats(f) <= f.len() * CAP_MAX
+}
+
+/// the vehicle ids in the order they are handed out
+pub open spec fn all_ids() -> Seq<VehicleIdx> { Seq::new(0x10000, |i: int| VehicleIdx::Vehicle(i as Idx)) }
+impl Schedule {
+    /// C14 "every flow unit is decoded into exactly one tour" / C13: the i-th given tour is the tour of the vehicle with
+    /// id i, a vehicle of the given type: the given nodes in order with depots at the ends (depots_added), no activity
+    /// lost, only nodes compatible with the type, a valid real tour of the network with exact caches
+    pub open spec fn vehicle_of_job(&self, i: int, job: JobV) -> bool {
+        let id = VehicleIdx::Vehicle(i as Idx);
+        &&& self.vehicles@.contains_key(id) && self.tours@.contains_key(id)
+        &&& self.vehicles@[id].idx == id && vtype(self.vehicles@[id]) == job.0 && self.vehicles@[id].vehicle_type == self.vtypes()[job.0]
+        &&& depots_added(&self.network, job.1@, self.tours@[id].nodes@)
+        &&& activities_kept(&self.network, job.1@, self.tours@[id].nodes@)
+        &&& all_compatible(&self.network, self.tours@[id].nodes@, job.0)
+        &&& tour_of_net(&self.network, &self.tours@[id]) && self.tours@[id].caches_ok()
+    }
+    pub open spec fn staff_term(&self) -> int { self.network.number_of_service_nodes * self.network.config.costs.staff }
+    /// the state of from_tours after the tours `done` have been spawned: the schedule invariant of the modifications
+    /// (sv_ok, listings_match), one vehicle per tour with ids 0, 1, 2, … in order of creation, no dummies, and what is
+    /// needed to re-establish sv_ok after the next spawn (exact unserved passengers, small formations, cost magnitude)
+    #[verifier::opaque]
+    pub open spec fn ft_inv(&self, net: Arc<Network>, done: Seq<JobV>) -> bool {
+        let tf = self.train_formations@;
+        &&& self.network == net
+        &&& service_enum_ok(&self.network) && caps_ok(&self.network)
+        &&& self.sv_ok() && self.listings_match()
+        &&& self.vehicle_counter == done.len() && done.len() <= 0x10000
+        &&& forall|v: VehicleIdx| #[trigger] self.vehicles@.contains_key(v) <==> v is Vehicle && (v->Vehicle_0 as int) < done.len()
+        &&& self.vehicles@.dom().len() == done.len()
+        &&& forall|i: int| 0 <= i < done.len() ==> self.vehicle_of_job(i, #[trigger] done[i])
+        &&& self.dummy_tours@ == Map::<VehicleIdx, Tour>::empty() && self.dummy_ids_sorted@.len() == 0
+        &&& forall|vt: VehicleTypeIdx| #[trigger] self.vehicle_ids_grouped_and_sorted@.contains_key(vt) <==> sched_types(self).contains(vt)
+        &&& forall|n: NodeIdx| #[trigger] tf.contains_key(n) ==> form_small(tf[n].formation@, done.len() as int)
+        &&& self.unserved_c(0) == unserved_from_scratch(&self.network, tf, 0)
+        &&& self.unserved_c(1) == unserved_from_scratch(&self.network, tf, 1)
+        &&& self.staff_term() <= STAFF_COST_MAX && self.costs <= self.staff_term() + done.len() * TOUR_COST_MAX
+        // C09: the cost figure is the staff term plus the costs of the tours of vehicles 0, 1, …, done.len() - 1
+        &&& self.costs == self.staff_term() + pre_costs(self.tours@, all_ids(), done.len() as int)
+    }
+}
+/// C06: "`result.unwrap()` -- every spawn succeeds".  The contract of spawn_vehicle_for_path (slices/spawn_vehicle.vs) does
+/// not say WHEN the result is Ok (only when it is Err for sure), so success cannot be derived from a condition on the
+/// input; it is stated about the function's behaviour instead: whatever spawn_vehicle_for_path returns (`call_ensures`:
+/// the relation between the arguments and the result of an actual call) for a schedule in the state from_tours can be in
+/// after the first n tours and the n-th given tour, is Ok
+pub open spec fn every_spawn_succeeds(net: Arc<Network>, jobs: Seq<JobV>) -> bool {
+    forall|s: Schedule, n: int, r: Result<(Schedule, VehicleIdx), String>|
+        0 <= n < jobs.len() && s.ft_inv(net, jobs.take(n))
+        && #[trigger] call_ensures(Schedule::spawn_vehicle_for_path, (&s, jobs[n].0, jobs[n].1), r)
+        ==> r is Ok
+}
+
+// ---- sums: two duplicate-free lists that agree on the nodes with a non-zero weight weigh the same ---------------
+pub proof fn lemma_nsum_same(a: Seq<NodeIdx>, s: Seq<NodeIdx>, d: spec_fn(NodeIdx) -> int)
+    requires
+        a.no_duplicates(), s.no_duplicates(),
+        forall|y: NodeIdx| #[trigger] d(y) != 0 ==> (a.contains(y) <==> s.contains(y)),
+    ensures nsum(a, d) == nsum(s, d),
+    decreases a.len(),
+{
+    if a.len() == 0 {
+        assert forall|i: int| 0 <= i < s.len() implies d(#[trigger] s[i]) == 0 by {
+            if d(s[i]) != 0 { assert(s.contains(s[i])); assert(a.contains(s[i])); }
+        }
+        lemma_nsum_zero(s, d);
+        assert(a.map_values(d) =~= Seq::<int>::empty());
+    } else {
+        let x = a.last();
+        let a1 = a.drop_last();
+        lemma_nsum_drop_last(a, d);
+        lemma_drop_last_contains(a);
+        assert(a.contains(x)) by { assert(a[a.len() - 1] == x); }
+        if s.contains(x) {
+            let p = choose|p: int| 0 <= p < s.len() && s[p] == x;
+            let s1 = s.remove(p);
+            lemma_nsum_remove(s, d, p);
+            lemma_remove_no_dup(s, p);
+            assert forall|y: NodeIdx| #[trigger] d(y) != 0 implies (a1.contains(y) <==> s1.contains(y)) by {
+                if y != x {
+                    if s1.contains(y) { let i = choose|i: int| 0 <= i < s1.len() && s1[i] == y; assert(s.contains(s1[i])); }
+                }
+            }
+            lemma_nsum_same(a1, s1, d);
+        } else {
+            assert(d(x) == 0);
+            assert forall|y: NodeIdx| #[trigger] d(y) != 0 implies (a1.contains(y) <==> s.contains(y)) by {}
+            lemma_nsum_same(a1, s, d);
+        }
+    }
+}
+pub proof fn lemma_nsum_diff(s: Seq<NodeIdx>, g1: spec_fn(NodeIdx) -> int, g0: spec_fn(NodeIdx) -> int, d: spec_fn(NodeIdx) -> int)
+    requires forall|n: NodeIdx| #[trigger] d(n) == g1(n) - g0(n),
+    ensures nsum(s, d) == nsum(s, g1) - nsum(s, g0),
+    decreases s.len(),
+{
+    if s.len() == 0 {
+        assert(s.map_values(d) =~= Seq::<int>::empty());
+        assert(s.map_values(g1) =~= Seq::<int>::empty());
+        assert(s.map_values(g0) =~= Seq::<int>::empty());
+    } else {
+        lemma_nsum_diff(s.drop_last(), g1, g0, d);
+        lemma_nsum_drop_last(s, d);
+        lemma_nsum_drop_last(s, g1);
+        lemma_nsum_drop_last(s, g0);
+    }
+}
+/// the change of the unserved passengers at one node
+pub open spec fn un_diff_fn(net: &Network, tf0: Formations, tf1: Formations, c: int) -> spec_fn(NodeIdx) -> int {
+    |n: NodeIdx| unserved_at(net, n, tf1[n].formation@, c) - unserved_at(net, n, tf0[n].formation@, c)
+}
+/// Schedule::un_sum over the new formations of the moved nodes is un_total over the new table
+pub proof fn lemma_un_new_total(sch: &Schedule, tf0: Formations, tf1: Formations, rv: Option<Vehicle>, s: Seq<NodeIdx>, k: int, c: int)
+    requires 0 <= k <= s.len(), sch.moved_get_replacement(s, tf0, tf1, None, rv),
+    ensures sch.un_sum(tf0, None, rv, s, k, true, c) == un_total(&sch.network, tf1, s, k, c),
+    decreases k,
+{
+    if k > 0 {
+        lemma_un_new_total(sch, tf0, tf1, rv, s, k - 1, c);
+        let n = s[k - 1];
+        if !sch.network.sp_node(n).sp_is_depot() {
+            assert(s.contains(n));
+            assert(moved_nd(&sch.network, s, n));
+            assert(tf1[n].formation@ == sch.repl_seq(tf0[n].formation@, None, rv));
+        }
+    }
+}
+/// C09: the exact delta update_train_formation applies keeps the cached unserved passengers at their from-scratch value
+pub proof fn lemma_step_unserved(s0: &Schedule, s1: &Schedule, id: VehicleIdx, c: int)
+    requires
+        c == 0 || c == 1, service_enum_ok(&s0.network), s1.network == s0.network,
+        s0.formations_follow(s1, id),
+        tour_of_net(&s0.network, &s1.tours@[id]),
+        s0.unserved_c(c) == unserved_from_scratch(&s0.network, s0.train_formations@, c),
+    ensures s1.unserved_c(c) == unserved_from_scratch(&s1.network, s1.train_formations@, c),
+{
+    let net = &s0.network;
+    let tf0 = s0.train_formations@;
+    let tf1 = s1.train_formations@;
+    let rv = Some(s1.vehicles@[id]);
+    let t = &s1.tours@[id];
+    let s = t.nodes@;
+    let n = s.len() as int;
+    let a = all_service_seq(net);
+    let g0 = un_fn(net, tf0, c);
+    let g1 = un_fn(net, tf1, c);
+    let d = un_diff_fn(net, tf0, tf1, c);
+    // what is subtracted / added, as sums over the nodes of the new tour
+    lemma_un_old(s0, tf0, None, rv, s, n, c);
+    lemma_un_old_total(s0, tf0, s, n, c);
+    lemma_un_total_nsum(net, tf0, s, n, c);
+    lemma_un_new_total(s0, tf0, tf1, rv, s, n, c);
+    lemma_un_total_nsum(net, tf1, s, n, c);
+    assert(s.take(n) =~= s);
+    // the totals
+    lemma_un_total_nsum(net, tf0, a, a.len() as int, c);
+    lemma_un_total_nsum(net, tf1, a, a.len() as int, c);
+    assert(a.take(a.len() as int) =~= a);
+    lemma_nsum_diff(a, g1, g0, d);
+    lemma_nsum_diff(s, g1, g0, d);
+    assert(s.no_duplicates()) by {
+        assert forall|i: int, j: int| 0 <= i < s.len() && 0 <= j < s.len() && i != j implies s[i] != s[j] by {
+            if s[i] == s[j] { lemma_tour_distinct(t, i, j); }
+        }
+    }
+    assert forall|y: NodeIdx| #[trigger] d(y) != 0 implies (a.contains(y) <==> s.contains(y)) by {
+        if !moved_nd(net, s, y) { assert(tf1[y] == tf0[y]); }
+        assert(s.contains(y));
+        let i = choose|i: int| 0 <= i < s.len() && s[i] == y;
+        lemma_tour_kinds(t, i);
+        assert(net.has(y));
+        assert(net.sp_node(y) is Service);
+        assert(a.contains(y));
+    }
+    lemma_nsum_same(a, s, d);
+}
+
+// ---- counting: the rotation cycles of all types together hold at most as many vehicles as the schedule has ---------
+/// the vehicles in the first k cycles
+pub open spec fn cyc_elems(t: TView, k: int) -> Set<VehicleIdx>
+    decreases k,
+{
+    if k <= 0 { Set::empty() } else { cyc_elems(t, k - 1).union(t.cyc(k - 1).to_set()) }
+}
+pub proof fn lemma_cyc_elems_member(t: TView, k: int, v: VehicleIdx)
+    requires 0 <= k <= t.n(),
+    ensures cyc_elems(t, k).contains(v) <==> exists|i: int| 0 <= i < k && (#[trigger] t.cyc(i)).contains(v),
+    decreases k,
+{
+    if k > 0 {
+        lemma_cyc_elems_member(t, k - 1, v);
+        if cyc_elems(t, k).contains(v) {
+            if t.cyc(k - 1).contains(v) { assert(0 <= k - 1 < k && t.cyc(k - 1).contains(v)); }
+            else {
+                let i = choose|i: int| 0 <= i < k - 1 && (#[trigger] t.cyc(i)).contains(v);
+                assert(0 <= i < k && t.cyc(i).contains(v));
+            }
+        }
+        if exists|i: int| 0 <= i < k && (#[trigger] t.cyc(i)).contains(v) {
+            let i = choose|i: int| 0 <= i < k && (#[trigger] t.cyc(i)).contains(v);
+            if i < k - 1 { assert(0 <= i < k - 1 && t.cyc(i).contains(v)); }
+        }
+    }
+}
+pub proof fn lemma_cyc_elems_len(t: TView, k: int)
+    requires t.wf_cycles(), 0 <= k <= t.n(),
+    ensures cyc_elems(t, k).len() == sum_seq(lens_of(t.cycles).take(k)),
+    decreases k,
+{
+    let l = lens_of(t.cycles);
+    if k > 0 {
+        lemma_cyc_elems_len(t, k - 1);
+        let a = cyc_elems(t, k - 1);
+        let b = t.cyc(k - 1).to_set();
+        assert(a.disjoint(b)) by {
+            assert forall|v: VehicleIdx| !(a.contains(v) && b.contains(v)) by {
+                if a.contains(v) && b.contains(v) {
+                    lemma_cyc_elems_member(t, k - 1, v);
+                    let i = choose|i: int| 0 <= i < k - 1 && (#[trigger] t.cyc(i)).contains(v);
+                    let x = choose|x: int| 0 <= x < t.cyc(i).len() && t.cyc(i)[x] == v;
+                    let ck = t.cyc(k - 1);
+                    let y = choose|y: int| 0 <= y < ck.len() && ck[y] == v;
+                    assert(t.cyc(i)[x] != t.cyc(k - 1)[y]);
+                }
+            }
+        }
+        vstd::set_lib::lemma_set_disjoint_lens(a, b);
+        t.cyc(k - 1).unique_seq_to_set();
+        assert(l.take(k).drop_last() =~= l.take(k - 1));
+        assert(l.take(k).last() == t.cyc(k - 1).len());
+    } else {
+        assert(l.take(0) =~= Seq::<int>::empty());
+    }
+}
+/// C15: a consistent transition holds as many vehicles as its lookup has keys
+pub proof fn lemma_total_len_is_lookup(t: TView)
+    requires t.wf_cycles(), t.wf_lookup(),
+    ensures t.total_len() == t.lookup.dom().len(),
+{
+    let l = lens_of(t.cycles);
+    lemma_cyc_elems_len(t, t.n());
+    assert(l.take(t.n()) =~= l);
+    assert(cyc_elems(t, t.n()) =~= t.lookup.dom()) by {
+        assert forall|v: VehicleIdx| cyc_elems(t, t.n()).contains(v) <==> t.lookup.dom().contains(v) by {
+            lemma_cyc_elems_member(t, t.n(), v);
+            if cyc_elems(t, t.n()).contains(v) {
+                let i = choose|i: int| 0 <= i < t.n() && (#[trigger] t.cyc(i)).contains(v);
+                let x = choose|x: int| 0 <= x < t.cyc(i).len() && t.cyc(i)[x] == v;
+                assert(t.lookup.contains_key(t.cyc(i)[x]));
+            }
+            if t.lookup.contains_key(v) {
+                assert(0 <= t.cycle_of(v) < t.n() && t.cyc(t.cycle_of(v)).contains(v));
+            }
+        }
+    }
+}
+/// the vehicles of one type
+pub open spec fn typed_vehicles(vehicles: VehicleMap, vt: VehicleTypeIdx) -> Set<VehicleIdx> {
+    vehicles.dom().filter(|v: VehicleIdx| vtype(vehicles[v]) == vt)
+}
+/// the vehicles of the first k listed types
+pub open spec fn typed_union(vehicles: VehicleMap, vts: Seq<VehicleTypeIdx>, k: int) -> Set<VehicleIdx>
+    decreases k,
+{
+    if k <= 0 { Set::empty() } else { typed_union(vehicles, vts, k - 1).union(typed_vehicles(vehicles, vts[k - 1])) }
+}
+pub proof fn lemma_typed_union(vehicles: VehicleMap, trs: Map<VehicleTypeIdx, Transition>, vts: Seq<VehicleTypeIdx>, k: int)
+    requires
+        vts.no_duplicates(), 0 <= k <= vts.len(),
+        forall|i: int| 0 <= i < vts.len() ==> (#[trigger] trs[vts[i]]).total_len() == typed_vehicles(vehicles, vts[i]).len(),
+    ensures
+        typed_union(vehicles, vts, k).len() == len_sum(trs, vts.take(k)),
+        typed_union(vehicles, vts, k).subset_of(vehicles.dom()),
+        forall|v: VehicleIdx| typed_union(vehicles, vts, k).contains(v) ==> exists|j: int| 0 <= j < k && vtype(vehicles[v]) == #[trigger] vts[j],
+    decreases k,
+{
+    if k > 0 {
+        lemma_typed_union(vehicles, trs, vts, k - 1);
+        let a = typed_union(vehicles, vts, k - 1);
+        let b = typed_vehicles(vehicles, vts[k - 1]);
+        assert(a.disjoint(b)) by {
+            assert forall|v: VehicleIdx| !(a.contains(v) && b.contains(v)) by {
+                if a.contains(v) && b.contains(v) {
+                    let j = choose|j: int| 0 <= j < k - 1 && vtype(vehicles[v]) == #[trigger] vts[j];
+                    assert(vts[j] != vts[k - 1]);
+                }
+            }
+        }
+        vstd::set_lib::lemma_set_disjoint_lens(a, b);
+        let tk = vts.take(k);
+        assert(tk.drop_last() =~= vts.take(k - 1));
+        assert(tk.last() == vts[k - 1]);
+        assert forall|v: VehicleIdx| typed_union(vehicles, vts, k).contains(v) implies exists|j: int| 0 <= j < k && vtype(vehicles[v]) == #[trigger] vts[j] by {
+            if a.contains(v) {
+                let j = choose|j: int| 0 <= j < k - 1 && vtype(vehicles[v]) == #[trigger] vts[j];
+                assert(0 <= j < k && vtype(vehicles[v]) == vts[j]);
+            } else {
+                assert(0 <= k - 1 < k && vtype(vehicles[v]) == vts[k - 1]);
+            }
+        }
+    } else {
+        assert(vts.take(0) =~= Seq::<VehicleTypeIdx>::empty());
+    }
+}
+/// (magnitude clause of transitions_ok) the cycles of all listed types hold at most as many vehicles as there are
+pub proof fn lemma_len_sum_le_vehicles(s: &Schedule)
+    requires
+        sched_types(s).no_duplicates(),
+        forall|vt: VehicleTypeIdx| #[trigger] s.next_period_transitions@.contains_key(vt) <==> sched_types(s).contains(vt),
+        forall|vt: VehicleTypeIdx| #[trigger] s.next_period_transitions@.contains_key(vt) ==> s.next_period_transitions@[vt].wf(&s.network, s.tours@),
+        forall|vt: VehicleTypeIdx, v: VehicleIdx| #![trigger s.next_period_transitions@[vt].has_vehicle(v)] s.next_period_transitions@.contains_key(vt)
+            ==> (s.next_period_transitions@[vt].has_vehicle(v) <==> s.vehicles@.contains_key(v) && vtype(s.vehicles@[v]) == vt),
+    ensures len_sum(s.next_period_transitions@, sched_types(s)) <= s.vehicles@.dom().len(),
+{
+    let trs = s.next_period_transitions@;
+    let vts = sched_types(s);
+    let vehicles = s.vehicles@;
+    assert forall|i: int| 0 <= i < vts.len() implies (#[trigger] trs[vts[i]]).total_len() == typed_vehicles(vehicles, vts[i]).len() by {
+        let vt = vts[i];
+        assert(vts.contains(vt));
+        assert(trs.contains_key(vt));
+        let t = trs[vt];
+        assert(t.wf(&s.network, s.tours@));
+        lemma_total_len_is_lookup(t@);
+        assert(t@.lookup.dom() =~= typed_vehicles(vehicles, vt)) by {
+            assert forall|v: VehicleIdx| t@.lookup.dom().contains(v) <==> typed_vehicles(vehicles, vt).contains(v) by {
+                assert(t.has_vehicle(v) <==> vehicles.contains_key(v) && vtype(vehicles[v]) == vt);
+            }
+        }
+    }
+    lemma_typed_union(vehicles, trs, vts, vts.len() as int);
+    assert(vts.take(vts.len() as int) =~= vts);
+    vstd::set_lib::lemma_len_subset(typed_union(vehicles, vts, vts.len() as int), vehicles.dom());
+}
+
+// ---- from_tours: the loop invariant is established by Schedule::empty, implies the precondition of
+// spawn_vehicle_for_path, and is re-established by its postcondition -------------------------------------------
+pub proof fn lemma_ft_init(s: &Schedule, net: Arc<Network>)
+    requires
+        s.network == net, s.is_empty_schedule(), s.sv_ok(), s.listings_match(),
+        s.costs == s.staff_term(), s.staff_term() <= STAFF_COST_MAX,
+        s.unserved_c(0) == unserved_from_scratch(&s.network, s.train_formations@, 0),
+        s.unserved_c(1) == unserved_from_scratch(&s.network, s.train_formations@, 1),
+        service_enum_ok(&s.network), caps_ok(&s.network),
+    ensures s.ft_inv(net, Seq::<JobV>::empty()),
+{
+    reveal(Schedule::ft_inv);
+    let tf = s.train_formations@;
+    assert(s.vehicles@.dom() =~= Set::<VehicleIdx>::empty());
+    assert forall|n: NodeIdx| #[trigger] tf.contains_key(n) implies form_small(tf[n].formation@, 0) by {
+        lemma_fcap_empty(tf[n].formation@);
+    }
+}
+pub proof fn lemma_ft_call(s: &Schedule, net: Arc<Network>, done: Seq<JobV>, job: JobV)
+    requires s.ft_inv(net, done), job_ok(&net, job),
+    ensures
+        s.network == net, s.sv_ok(), s.listings_match(), s.type_known(job.0),
+        job.1@.len() >= 1, all_in_net(&s.network, job.1@), tour_len_ok(job.1@), s.spawn_counter_ok(job.1@),
+{
+    reveal(Schedule::ft_inv);
+}
+/// C10 (ids) after one spawn
+pub proof fn lemma_step_ids(s0: &Schedule, s1: &Schedule, vt: VehicleTypeIdx, path: Seq<NodeIdx>, id: VehicleIdx)
+    requires s0.sv_ids_ok(), s0.vehicle_counter <= 0xffff, s0.spawned(vt, path, s1, id), s0.listed(vt, s1, id),
+    ensures s1.sv_ids_ok(),
+{
+    assert forall|v: VehicleIdx| #[trigger] s1.vehicles@.contains_key(v)
+        implies v is Vehicle && (v->Vehicle_0 as int) < s1.vehicle_counter && s1.vehicles@[v].idx == v by {
+        if v != id { assert(s0.vehicles@.contains_key(v)); }
+    }
+    assert forall|v: VehicleIdx| #[trigger] s1.vehicles@.contains_key(v) <==> s1.tours@.contains_key(v) by {
+        if v != id { assert(s0.vehicles@.contains_key(v) <==> s0.tours@.contains_key(v)); }
+    }
+    assert forall|t: VehicleTypeIdx| #[trigger] s1.vehicle_ids_grouped_and_sorted@.contains_key(t) implies sorted_cmp(s1.listing(t)) by {
+        if t != vt { assert(s0.vehicle_ids_grouped_and_sorted@.contains_key(t)); assert(s1.listing(t) == s0.listing(t)); }
+    }
+}
+/// the formations stay small: every formation gained at most the new vehicle
+pub proof fn lemma_step_forms(s0: &Schedule, s1: &Schedule, id: VehicleIdx, k: int)
+    requires
+        s0.formations_follow(s1, id), !s0.dummy_tours@.contains_key(s1.vehicles@[id].idx),
+        s1.vehicles@[id].vehicle_type.capacity <= CAP_MAX, s1.vehicles@[id].vehicle_type.seats <= CAP_MAX,
+        forall|n: NodeIdx| #[trigger] s0.train_formations@.contains_key(n) ==> form_small(s0.train_formations@[n].formation@, k),
+    ensures
+        forall|n: NodeIdx| #[trigger] s1.train_formations@.contains_key(n) ==> form_small(s1.train_formations@[n].formation@, k + 1),
+{
+    let tf0 = s0.train_formations@;
+    let tf1 = s1.train_formations@;
+    let vh = s1.vehicles@[id];
+    let rv = Some(vh);
+    let nodes = s1.tours@[id].nodes@;
+    assert(s0.grows(None, rv));
+    assert forall|n: NodeIdx| #[trigger] tf1.contains_key(n) implies form_small(tf1[n].formation@, k + 1) by {
+        assert(tf0.dom().contains(n));
+        assert(tf0.contains_key(n));
+        let f = tf0[n].formation@;
+        if moved_nd(&s0.network, nodes, n) {
+            assert(tf1[n].formation@ == s0.repl_seq(f, None, rv));
+            assert(tf1[n].formation@ == f.push(vh));
+            lemma_fcap_push(f, vh);
+            assert((f.len() + 1) * CAP_MAX == f.len() * CAP_MAX + CAP_MAX) by (nonlinear_arith);
+        } else {
+            assert(tf1[n] == tf0[n]);
+        }
+    }
+}
+pub proof fn lemma_ft_step(s0: &Schedule, s1: &Schedule, net: Arc<Network>, done: Seq<JobV>, job: JobV, id: VehicleIdx)
+    requires
+        s0.ft_inv(net, done), job_ok(&net, job), s0.vehicle_counter <= 0xffff,
+        // the postcondition of spawn_vehicle_for_path(job.0, job.1) -> Ok((s1, id))
+        all_compatible(&s0.network, s1.tours@[id].nodes@, job.0),
+        s0.spawned(job.0, job.1@, s1, id),
+        activities_kept(&s0.network, job.1@, s1.tours@[id].nodes@),
+        s0.listed(job.0, s1, id),
+        s1.listings_match(),
+        s0.formations_follow(s1, id),
+        s1.costs == s0.costs + s1.tours@[id].costs,
+        usage_exact(s1.depot_usage@, &s0.network, s1.vehicles@, s1.tours@),
+        s0.transitions_follow(job.0, s1),
+    ensures s1.ft_inv(net, done.push(job)),
+{
+    reveal(Schedule::ft_inv);
+    let vt = job.0;
+    let path = job.1@;
+    let k = done.len() as int;
+    let d1 = done.push(job);
+    let tf0 = s0.train_formations@;
+    let tf1 = s1.train_formations@;
+    let vh = s1.vehicles@[id];
+    assert(id == VehicleIdx::Vehicle(k as Idx));
+    assert(s1.network == net);
+    // ids
+    lemma_step_ids(s0, s1, vt, path, id);
+    assert forall|v: VehicleIdx| #[trigger] s1.vehicles@.contains_key(v) <==> v is Vehicle && (v->Vehicle_0 as int) < d1.len() by {
+        if v != id { assert(s0.vehicles@.contains_key(v) <==> v is Vehicle && (v->Vehicle_0 as int) < k); }
+    }
+    assert(s1.vehicles@.dom() =~= s0.vehicles@.dom().insert(id));
+    // C14: one vehicle per given tour
+    assert forall|i: int| 0 <= i < d1.len() implies s1.vehicle_of_job(i, #[trigger] d1[i]) by {
+        if i < k {
+            assert(s0.vehicle_of_job(i, done[i]));
+            assert(VehicleIdx::Vehicle(i as Idx) != id);
+        }
+    }
+    // the id lists
+    assert forall|t: VehicleTypeIdx| #[trigger] s1.vehicle_ids_grouped_and_sorted@.contains_key(t) <==> sched_types(s1).contains(t) by {
+        assert(s0.vehicle_ids_grouped_and_sorted@.contains_key(t) <==> sched_types(s0).contains(t));
+    }
+    // formations
+    assert(vh.vehicle_type == s0.vtypes()[vt]);
+    lemma_step_forms(s0, s1, id, k);
+    lemma_step_unserved(s0, s1, id, 0);
+    lemma_step_unserved(s0, s1, id, 1);
+    lemma_total_covers_lists(s1, 0);
+    lemma_total_covers_lists(s1, 1);
+    assert(s1.sv_formations_ok()) by {
+        assert forall|n: NodeIdx| s1.network.has(n) && s1.network.sp_node(n).sp_is_activity() implies #[trigger] tf1.contains_key(n) by {
+            assert(tf0.contains_key(n));
+            assert(tf1.dom().contains(n));
+        }
+        assert forall|n: NodeIdx| #[trigger] tf1.contains_key(n) implies tf1[n].formation@.len() <= max_vehicles() by {
+            assert(form_small(tf1[n].formation@, k + 1));
+        }
+        assert forall|n: NodeIdx, t: VehicleTypeIdx| #![trigger tf1[n], s1.vtypes()[t]] tf1.contains_key(n) && s1.vtypes().contains_key(t)
+            implies fcap(tf1[n].formation@) + s1.vtypes()[t].capacity <= u32::MAX && fseats(tf1[n].formation@) + s1.vtypes()[t].seats <= u32::MAX by {
+            let f = tf1[n].formation@;
+            assert(form_small(f, k + 1));
+            assert(f.len() * CAP_MAX <= 0x10000 * CAP_MAX) by (nonlinear_arith) requires f.len() <= 0x10000, CAP_MAX == 0x7fff;
+        }
+        assert forall|q: Seq<NodeIdx>, c: int| #![trigger s1.un_old(q, q.len() as int, c)] q.no_duplicates() && all_in_net(&s1.network, q) && (c == 0 || c == 1)
+            implies s1.un_old(q, q.len() as int, c) <= s1.unserved_c(c) by {}
+    }
+    // rotation cycles
+    assert(s1.transitions_ok()) by {
+        let trs1 = s1.next_period_transitions@;
+        assert(sched_types(s1) == sched_types(s0));
+        assert forall|t: VehicleTypeIdx| #[trigger] trs1.contains_key(t) <==> sched_types(s1).contains(t) by {
+            assert(s0.next_period_transitions@.contains_key(t) <==> sched_types(s0).contains(t));
+        }
+        lemma_len_sum_le_vehicles(s1);
+    }
+    // costs
+    assert(s1.tours@[id].costs <= TOUR_COST_MAX) by {
+        assert(path_cost_ok(&net, path));
+        assert(tour_of_net(&net, &s1.tours@[id]));
+    }
+    assert((k + 1) * TOUR_COST_MAX == k * TOUR_COST_MAX + TOUR_COST_MAX) by (nonlinear_arith);
+    assert(STAFF_COST_MAX + (k + 1) * TOUR_COST_MAX <= sched_cost_bound()) by (nonlinear_arith)
+        requires 0 <= k < 0x10000, STAFF_COST_MAX == 0x1000_0000_0000_0000, TOUR_COST_MAX == 0x1000_0000_0000, sched_cost_bound() == 0x2000_0000_0000_0000;
+    assert(s1.staff_term() == s0.staff_term());
+    assert(s1.sv_ok());
+    // C09: the cost figure
+    assert forall|j: int| 0 <= j < k implies s0.tours@[#[trigger] all_ids()[j]] == s1.tours@[all_ids()[j]] by {
+        assert(all_ids()[j] != id);
+    }
+    lemma_pre_costs_frame(s0.tours@, s1.tours@, all_ids(), k);
+    assert(all_ids()[k] == id);
+}
+/// the number of tours in the first k entries
+pub open spec fn tours_total(es: TourEntries, k: int) -> int
+    decreases k,
+{
+    if k <= 0 { 0 } else { tours_total(es, k - 1) + es[k - 1].1@.len() }
+}
+pub proof fn lemma_jobs_len(es: TourEntries, k: int)
+    ensures jobs_upto(es, k).len() == tours_total(es, k),
+    decreases k,
+{
+    if k > 0 { lemma_jobs_len(es, k - 1); }
+}
+/// what from_tours guarantees about its result (the readable part of ft_inv)
+pub open spec fn from_tours_post(s: &Schedule, net: Arc<Network>, jobs: Seq<JobV>) -> bool {
+    &&& s.network == net
+    // "the number of vehicles is the number of given tours": ids 0, 1, 2, … in order of creation
+    &&& s.vehicle_counter == jobs.len() && s.vehicles@.dom().len() == jobs.len()
+    &&& forall|v: VehicleIdx| #[trigger] s.vehicles@.contains_key(v) <==> v is Vehicle && (v->Vehicle_0 as int) < jobs.len()
+    // "every given tour becomes the tour of exactly one vehicle of the given type": the i-th given tour is the tour of vehicle i
+    &&& forall|i: int| 0 <= i < jobs.len() ==> s.vehicle_of_job(i, #[trigger] jobs[i])
+    // no dummy tours
+    &&& s.dummy_tours@ == Map::<VehicleIdx, Tour>::empty() && s.dummy_ids_sorted@.len() == 0
+}
+pub proof fn lemma_ft_post(s: &Schedule, net: Arc<Network>, jobs: Seq<JobV>)
+    requires s.ft_inv(net, jobs),
+    ensures
+        from_tours_post(s, net, jobs), s.sv_ok(), s.listings_match(),
+        s.unserved_c(0) == unserved_from_scratch(&s.network, s.train_formations@, 0),
+        s.unserved_c(1) == unserved_from_scratch(&s.network, s.train_formations@, 1),
+        s.costs == s.staff_term() + pre_costs(s.tours@, all_ids(), jobs.len() as int),
+{
+    reveal(Schedule::ft_inv);
 }
